@@ -82,7 +82,7 @@ def validate(case):
             raise C.CaseInvalid("clock")
         if op[0] in ("send", "partial", "reads", "stalls", "closes", "connect") and (len(op) < 2 or not isinstance(op[1], int) or op[1] < 0):
             raise C.CaseInvalid("index")
-        if op[0] == "send" and (len(op) != 3 or op[2] not in (True, False, 2, 3, 4)):
+        if op[0] == "send" and (len(op) != 3 or op[2] not in (True, False, 2, 3, 4, 5)):
             raise C.CaseInvalid("send")
 
 
@@ -208,6 +208,12 @@ def run_history(case):
                         s.inq.append(s2b("GET %s HTTP/1.1\r\nHost: h\r\nConnection: close\r\n\r\n" % path))
                     elif op[2] == 4:
                         s.inq.append(s2b("GET %s HTTP/1.0\r\nHost: h\r\n\r\n" % path))
+                    elif op[2] == 5:
+                        # an expecting request whose body is withheld: the server answers 100 Continue, no request is in progress,
+                        # and the connection is idle from then on (the next "send" on this connection delivers the body)
+                        s.inq.append(s2b("POST %s HTTP/1.1\r\nHost: h\r\nContent-Length: 5\r\nExpect: 100-continue\r\n\r\n" % path))
+                        m["half"] = "hello"
+                        labels.add("expect-body-withheld")
                     else:
                         s.inq.append(s2b("GET %s HTTP/1.1\r\nHost: h\r\n\r\n" % path))
                     if m["accepted"]:
@@ -288,8 +294,8 @@ def ops_strategy():
     return st.lists(st.one_of(
         st.tuples(st.just("connect"), st.integers(0, 1)).map(list),
         st.tuples(st.just("connect"), st.integers(0, 1)).map(list),
-        st.tuples(st.just("send"), idx, st.sampled_from([True, False, False, 2, 3, 4])).map(list),
-        st.tuples(st.just("send"), idx, st.sampled_from([True, False, False, 2, 3, 4])).map(list),
+        st.tuples(st.just("send"), idx, st.sampled_from([True, False, False, 2, 3, 4, 5])).map(list),
+        st.tuples(st.just("send"), idx, st.sampled_from([True, False, False, 2, 3, 4, 5])).map(list),
         st.tuples(st.just("partial"), idx).map(list),
         st.tuples(st.just("reads"), idx).map(list),
         st.tuples(st.just("stalls"), idx).map(list),
@@ -306,7 +312,7 @@ def motif_ops(draw):
     """k connections; some stay active by sending every `step` seconds, the others go idle (or stay busy)"""
     k = draw(st.integers(2, 4))
     ops = [["connect", 0] for _ in range(k)]
-    roles = [draw(st.sampled_from(["active", "idle", "busy", "partial", "streaming"])) for _ in range(k)]
+    roles = [draw(st.sampled_from(["active", "idle", "busy", "partial", "streaming", "expect"])) for _ in range(k)]
     order = draw(st.permutations(list(range(k))))
     for i in order:
         if roles[i] == "streaming":
@@ -317,6 +323,8 @@ def motif_ops(draw):
             ops.append(["send", i, True])
         elif roles[i] == "partial":
             ops.append(["partial", i])
+        elif roles[i] == "expect":
+            ops.append(["send", i, 5])
         else:
             ops.append(["send", i, False])
     step = draw(st.sampled_from([0.5, 1, 1, 1.5]))
@@ -349,6 +357,12 @@ def _free_histories():
 
 
 FIXED = [
+    # a client that was told to go ahead (100 Continue) and then never sends the body is an idle connection like any other
+    {"cfg": {"connection_limit": 100, "channel_timeout": 2, "cleanup_interval": 1}, "ops": [["connect", 0], ["connect", 0], ["send", 0, 5], ["send", 1, True],
+                                                                                             ["clock", 1], ["clock", 1], ["clock", 5], ["clock", 5], ["finish"], ["clock", 1]]},
+    # ... and one that does send it in time is served
+    {"cfg": {"connection_limit": 100, "channel_timeout": 2, "cleanup_interval": 1}, "ops": [["connect", 0], ["send", 0, 5], ["clock", 1], ["send", 0, False],
+                                                                                             ["clock", 1], ["send", 0, 5], ["clock", 5], ["clock", 5]]},
     # busy connection must survive, idle one must go
     {"cfg": {"connection_limit": 100, "channel_timeout": 2, "cleanup_interval": 1}, "ops": [["connect", 0], ["connect", 0], ["send", 0, True], ["send", 1, False],
                                                                                              ["clock", 5], ["clock", 5], ["clock", 500], ["finish"], ["clock", 1]]},
